@@ -215,7 +215,7 @@ func (s *Service) SetNotifier(n p2p.Notifier) {
 	s.notifier = n
 }
 
-// beginHandshake records that an inbound handshake with the peer is in progress.
+// beginHandshake records that a handshake with the peer is in progress.
 // The returned function must be called once the handshake has been fully
 // processed, i.e. after the peer has been registered or refused.
 func (s *Service) beginHandshake(peerID peer.ID) func() {
@@ -243,7 +243,7 @@ func (s *Service) beginHandshake(peerID peer.ID) func() {
 	}
 }
 
-// waitHandshake blocks until no inbound handshake with the peer is in progress.
+// waitHandshake blocks until no handshake with the peer is in progress.
 func (s *Service) waitHandshake(peerID peer.ID) {
 	for {
 		// the slice is rewritten in place by finishing handshakes, so the channel
@@ -477,6 +477,11 @@ func (s *Service) Connect(ctx context.Context, info []byte) (p2p.Peer, error) {
 		return p2p.Peer{}, err
 	}
 	stream := newStream(streamlibp2p, nil, nil)
+
+	// the remote may open streams as soon as its side of the handshake is done
+	// (or, after a mutual dial, as soon as it has registered us), which can be
+	// before we have registered it: let the stream handlers wait for us
+	defer s.beginHandshake(addrInfo.ID)()
 
 	p, err := s.hsSvc.Handshake(ctx, addrInfo.ID, stream)
 	if err != nil {
